@@ -2,10 +2,12 @@
 //
 // Case kinds (field 1 after the id):
 //
-//	rtc  keys vals levels oldKeys oldVals | issued c2 seen2 c3 seen3
-//	     redirect with messages; Go's net/http (response parser + cookiejar + request writer) is the
+//	rtc  keys vals levels oldKeys oldVals wi<p1>.<p2>… | issued c2 seen2 c3 seen3
+//	     redirect with messages: With(keys[i], vals[i], levels[i]) in order, one WithInput() per
+//	     position p (after the first p With calls; "wi-" = none; old inputs travel in the query);
+//	     Go's net/http (response parser + cookiejar + request writer) is the
 //	     conforming client that follows to /show twice.
-//	rtt  keys vals levels oldKeys oldVals | issued st2 seen2 exp2 st3 seen3
+//	rtt  keys vals levels oldKeys oldVals wi<p1>.<p2>… | issued st2 seen2 exp2 st3 seen3
 //	     same, but the client copies the Set-Cookie value verbatim into its Cookie header.
 //	dec  cookies(hexlist) | per request "status/seenCookie/msgs/exp" joined by '|' , allocs (csv)
 //	     raw cookie values sent one after another to the same app (pooled context reused).
@@ -44,7 +46,7 @@ type flash struct {
 type script struct {
 	flashes []flash
 	olds    [][2]string
-	wipos   int // WithInput() is called after the first wipos With calls (only when olds is non-empty)
+	wipos   []int // one WithInput() call per entry p: after the first p With calls (non-decreasing)
 }
 
 var (
@@ -63,13 +65,15 @@ func setup() {
 	app = fiber.New()
 	app.Get("/go", func(c fiber.Ctx) error {
 		r := c.Redirect()
+		wi := 0
 		for i, f := range cur.flashes {
-			if i == cur.wipos && len(cur.olds) > 0 {
+			for wi < len(cur.wipos) && cur.wipos[wi] <= i {
 				r.WithInput()
+				wi++
 			}
 			r.With(f.key, f.val, f.level)
 		}
-		if cur.wipos >= len(cur.flashes) && len(cur.olds) > 0 {
+		for ; wi < len(cur.wipos); wi++ {
 			r.WithInput()
 		}
 		return r.To("/show")
@@ -308,11 +312,23 @@ func scriptFields(s script) []string {
 	if l == "" {
 		l = "-"
 	}
-	return []string{gen.HexList(ks), gen.HexList(vs), l, gen.HexList(oks), gen.HexList(ovs), "wi" + strconv.Itoa(s.wipos)}
+	return []string{gen.HexList(ks), gen.HexList(vs), l, gen.HexList(oks), gen.HexList(ovs), wiField(s.wipos)}
 }
 
-// nScriptFields: 6 when the line carries the WithInput position ("wi<N>"), 5 for older lines
-// (corpus, known-finding witnesses: WithInput after every With call).
+// wiField: "wi" + positions of the WithInput() calls joined by '.', "wi-" = never called
+func wiField(pos []int) string {
+	if len(pos) == 0 {
+		return "wi-"
+	}
+	var p []string
+	for _, x := range pos {
+		p = append(p, strconv.Itoa(x))
+	}
+	return "wi" + strings.Join(p, ".")
+}
+
+// nScriptFields: 6 when the line carries the WithInput positions ("wi<p1>.<p2>…", "wi-" = none), 5 for
+// older lines (corpus, known-finding witnesses: one WithInput() after all With calls).
 func nScriptFields(in []string) int {
 	if len(in) >= 6 && strings.HasPrefix(in[5], "wi") {
 		return 6
@@ -341,13 +357,20 @@ func parseScript(f []string) (script, bool) {
 	for i := range oks {
 		s.olds = append(s.olds, [2]string{oks[i], ovs[i]})
 	}
-	s.wipos = len(s.flashes)
+	s.wipos = []int{len(s.flashes)}
 	if len(f) >= 6 {
-		p, err := strconv.Atoi(strings.TrimPrefix(f[5], "wi"))
-		if err != nil || p < 0 || p > len(s.flashes) {
-			return s, false
+		s.wipos = nil
+		if rest := strings.TrimPrefix(f[5], "wi"); rest != "-" {
+			prev := 0
+			for _, x := range strings.Split(rest, ".") {
+				p, err := strconv.Atoi(x)
+				if err != nil || p < prev || p > len(s.flashes) {
+					return s, false
+				}
+				s.wipos = append(s.wipos, p)
+				prev = p
+			}
 		}
-		s.wipos = p
 	}
 	return s, true
 }
